@@ -17,7 +17,7 @@ INFO = {
     "outside": ["directory trees outside the skeleton", "CMake syntax beyond the two CMakeLists texts", "the --exclude-submodules option"],
     "stubs": ["memfs behind kconfcheck.check_deprecated_options (open, os.path, os.walk)", "IDF_PATH points at the skeleton"],
 }
-BUDGET = {"quick": 200, "thorough": 800}
+BUDGET = {"quick": 300, "thorough": 800}
 
 IDF = "/m/idf"
 DIRS = {
